@@ -321,7 +321,11 @@ class CMakeTraceParser:
         # ensure spaces in the value are correctly handled. This assumes that
         # variable names don't have spaces. Please don't do that...
         identifier = args.pop(0)
-        value = ' '.join(args)
+        if self.trace_format == 'human':
+            value = ' '.join(args)
+        else:
+            # The arguments are exact here: several values are a list
+            value = ';'.join(args)
 
         # Write to the CMake cache instead
         if cache_type:
